@@ -59,9 +59,13 @@ int poll(struct pollfd *fds, nfds_t nfds, int timeout)
 #include <sys/un.h>
 #include <unistd.h>
 #include <netinet/in.h>
-/* env/fd.h (descriptor table, socket/close/connect/bind/... models) is reused UNCHANGED; its connect() and bind() are
- * compiled under other names and wrapped below: the fd.h model decides the outcome and does the C05/C08 checks, the
- * wrapper adds the attempt log. */
+/* env/fd.h (descriptor table; socket/close models, used by tconnect_create/destroy) is reused UNCHANGED.  Its connect() and
+ * bind() are compiled under other names and NOT used: this unit needs a log of the ATTEMPTS (which address, in which order
+ * of steps), and their call counters as separate globals made the recursive track_connect_next too expensive (see
+ * harness/dnstc/_ghost.h).  The two models below make the same checks and have the same outcomes as fd.h's:
+ *   - C08: the descriptor is one the library owns and has open (obligation),
+ *   - C05: a descriptor without O_NONBLOCK makes connect() write the ghost xv_blocked,
+ *   - they fail nondeterministically with ANY errno 1..XV_ERRNO_MAX (EINPROGRESS, ECONNREFUSED, EADDRINUSE, EINVAL, ...). */
 #define connect xv_fdh_connect
 #define bind xv_fdh_bind
 #include "env/fd.h"
@@ -76,31 +80,39 @@ int poll(struct pollfd *fds, nfds_t nfds, int timeout)
 #define XV_STEP_FAILED { xv_fail_n++; xv_fail_errno = xv_errno; \
                          if (XT->ip_idx == xv_ai) { xv_att_failed++; xv_att_errno = xv_errno; } }
 
-#define XV_BINDW_ASSIGNS XV_BIND_ASSIGNS, xv_fail, xv_pre, xv_arow
-#define XV_CONNW_ASSIGNS XV_CONNECT_ASSIGNS, xv_fail, xv_pre, xv_arow, xv_conn
-
-/* TRUSTED(kernel) bind(2) = env/fd.h's model + log: a successful bind of the address tp_ip_to_sockaddr last built from
- * (track->local_ip, track->local_port) marks the descriptor as "bound to the configured local address" */
+/* TRUSTED(kernel) bind(2).  A successful bind of the address tp_ip_to_sockaddr last built from (track->local_ip,
+ * track->local_port) marks the descriptor as "bound to the configured local address". */
 int bind(int fd, const struct sockaddr *addr, socklen_t len)
 {
-    int rc = xv_fdh_bind(fd, addr, len);
-    if (rc < 0) {
+    XV_FD_USE(fd, "C08 bind() on a descriptor the library owns and has open");
+    __CPROVER_assert(len >= sizeof(sa_family_t) && __CPROVER_r_ok(addr, len), "bind() address readable");
+    xv_kc.bind_calls++; xv_kc.bind_fd = fd;
+    if (nondet_bool()) {
+        xv_errno = xv_any_errno();
         XV_STEP_FAILED
         XV_ATTEMPT_ENDS
-    } else
-        xv_pre_bind_fd = ((const void *)addr == xv_sa_dst && XT->local_ip != NULL && xv_sa_src == (const void *)XT->local_ip &&
-                          xv_sa_port == XT->local_port && len == sizeof(struct sockaddr_storage)) ? fd : -1;
-    return rc;
+        return -1;
+    }
+    xv_kc.bind_ok_calls++;
+    xv_pre_bind_fd = ((const void *)addr == xv_sa_dst && XT->local_ip != NULL && xv_sa_src == (const void *)XT->local_ip &&
+                      xv_sa_port == XT->local_port && len == sizeof(struct sockaddr_storage)) ? fd : -1;
+    return 0;
 }
 
-/* TRUSTED(kernel) connect(2) = env/fd.h's model + log.  An address of family AF_UNSPEC dissolves the association
- * ("disconnect"); anything else is a connection ATTEMPT on the address the track currently points at. */
+/* TRUSTED(kernel) connect(2).  An address of family AF_UNSPEC dissolves the association ("disconnect"); anything else is a
+ * connection ATTEMPT on the address the track currently points at. */
 int connect(int fd, const struct sockaddr *addr, socklen_t len)
 {
+    XV_FD_USE(fd, "C08 connect() on a descriptor the library owns and has open");
     __CPROVER_assert(len >= sizeof(sa_family_t) && __CPROVER_r_ok(addr, len), "connect() address readable");
+    if (!xv_fdt.e[fd].nonblock) xv_blocked = 1;
+    xv_kc.connect_calls++; xv_kc.connect_fd = fd;
+    int rc = 0;
+    if (nondet_bool()) { xv_errno = xv_any_errno(); rc = -1; }
+    else xv_kc.connect_ok_calls++;
     if (addr->sa_family == AF_UNSPEC) {
         xv_disc_n++; xv_disc_fd = fd;
-        return xv_fdh_connect(fd, addr, len);
+        return rc;
     }
     if (xv_pre_eff_fd != fd) xv_unprepared++;
     if (xv_pre_bind_fd != fd) xv_unbound++;
@@ -110,7 +122,6 @@ int connect(int fd, const struct sockaddr *addr, socklen_t len)
     if (!(XT->fd_reg_id >= 0 && XT->fd_reg_id == xv_reg_id && xv_reg_fd == fd && xv_reg_event == EPOLLOUT))
         xv_unregistered++;
     XV_ATTEMPT_ENDS
-    int rc = xv_fdh_connect(fd, addr, len);
     xv_conn_n++; xv_conn_idx = XT->ip_idx; xv_conn_fd = fd; xv_conn_rc = rc; xv_conn_errno = rc < 0 ? xv_errno : 0;
     if (XT->ip_idx == xv_ai) {
         xv_att_conn++; xv_att_conn_rc = rc; xv_att_conn_errno = xv_conn_errno; xv_att_conn_fd = fd; xv_att_conn_src = xv_sa_src;
